@@ -116,6 +116,28 @@ def chanlife_part(ctx, own_prefixes, depth, known_key_fn=None):
             "steps_compared": sum(len(x["ops"]) for x in res), "verdict_histogram": hist}
 
 
+def chanids_inductive(ctx):
+    """unbounded safety of id allocation: Apalache discharges the inductive invariant of spec/apalache/ChanIdsInd.tla
+    (Init => IndInv; IndInv /\\ Next => IndInv'; IdsDistinct and Parity are conjuncts), with a non-vacuity probe"""
+    from mbt import apalache
+
+    if not apalache.available():
+        ctx.note("apalache-mc not on PATH: inductive invariant of ChanIdsInd not checked")
+        return {"checked": False}
+    res = {"init_implies_inv": apalache.check("ChanIdsInd", "Init", "IndInv", 0, ctx.scratch),
+           "inv_is_inductive": apalache.check("ChanIdsInd", "IndInit", "IndInv", 1, ctx.scratch),
+           "probe_from_arbitrary_state": apalache.check("ChanIdsInd", "IndInit", "Probe", 0, ctx.scratch)}
+    if any(v.startswith("error") for v in res.values()):
+        ctx.note(f"Apalache could not be run to completion: {res}")
+        return {"checked": False, **res}
+    if res["init_implies_inv"] != "ok" or res["inv_is_inductive"] != "ok":
+        ctx.machinery(f"Apalache: the invariant of spec/apalache/ChanIdsInd.tla is not inductive: {res}")
+    if res["probe_from_arbitrary_state"] != "violated":
+        ctx.machinery("Apalache: IndInit of ChanIdsInd admits no interesting state (vacuous induction step)")
+    ctx.note("Apalache: IndInv of ChanIdsInd is inductive (any number of channels per thread): ids pairwise distinct, parity by side")
+    return {"checked": True, **res, "caveat": "the arbitrary state of the induction step holds at most 6 handed-out ids (Gen(6))"}
+
+
 def has(evs, **kw):
     return any(all(e.get(k) == v for k, v in kw.items()) for e in evs)
 
